@@ -16,6 +16,16 @@ expiries, clock advances and `Close`. `code_is_good` is the tie: the regenerated
 `stopTimer()`/`startTimer()` call sites, deferred calls and statement facts are the ones the proofs
 in `Juniper/Proofs/Batch*.lean` are about; it is re-checked by `decide` on every run.
 
+What the liveness-flavoured clauses are proved as (nothing here says "eventually" without naming what is
+assumed): `batch_close_returns` — after `Close` every internal step strictly decreases a measure, a
+run-level bound `#internal steps ≤ 16 + 4·#items the source still hands out`, and quiescent ⇒ `Close`
+has returned; `batch_handed_to_waiter` — the overdue condition is stable until the waiter is served or
+leaves, every internal step but the hand-off `prodSend` decreases a rank, and such a step is enabled;
+`batch_waiter_sees_end` — enabledness of the closed-channel arm. Assumed, not proved: scheduler
+fairness, select fairness between the arms named in those docstrings, finitely many items after `Close`.
+`Close` is taken only while no `Next` is pending and no `Next` is called after it (Stream contract):
+"at any moment" = at any moment between consumer calls, with the goroutines in any state.
+
 Only the property theorems and their non-vacuity examples live here.
 -/
 namespace Juniper.Props.C11
@@ -448,9 +458,9 @@ example : ∃ s, Reach code (Cfg.ofBatch 10 2) s ∧ s.results = [.ctxErr, .batc
 
 Assumptions, all named in `checks/C11.json`: the user's `full` returns (`hfull`); a source `Next`
 blocked on the cancelled `bgCtx` returns (the `prodCancelled` step is internal); after `Close` the
-source hands out only finitely many more items; select fairness between `c <- item` and
-`<-bgCtx.Done()` is *not* needed for (1)–(3) but for "eventually" when the source keeps offering
-items. -/
+source hands out only finitely many more items (or else: the producer's `select` between
+`c <- item` and `<-bgCtx.Done()` is fair — not formalised); for "eventually" in wall-clock terms,
+that enabled steps are taken (scheduler). -/
 theorem batch_close_returns {cfg : Cfg} (hfull : ∀ b, ∃ r, cfg.fullOK b r = true) {s : State}
     (h : Reach code cfg s) (hc : s.bgCancelled = true) :
     (Gen.Skeleton.batchClose = Model.Skeleton.batchClose ∧ Gen.Skeleton.batchFlush = Model.Skeleton.batchFlush ∧
